@@ -105,7 +105,7 @@ claims = {
        "no backslash; SMT string theory); the only file-system calls of the module (os.Stat, os.ReadFile) carry the precondition confined(path), which "
        "can only be established by Join(Dir(including file), validated parameter); any other external call is an undeclared-external failure; "
        "Stack.Push refuses a file whose name is on the stack (recursion error) and Pop forgets exactly the popped name.",
-  note=TB + " Assumed lemma: filepath.Join(d, p) stays below d for a relative dot-free p; assume clauses of Stack.Pop (ownership of stacked scanners; names of the remaining items stay registered).",
+  note=TB + " Assumed lemma: filepath.Join(d, p) stays below d for a relative dot-free p; one assume clause of Stack.Pop (ownership of a stacked scanner; that the names of the remaining items stay registered is proved from the pairwise-distinct-names invariant).",
   ref="§6 C14"),
  "C16": dict(
   text="Frame argument over the real code, in two parts. (a) Mechanical, on the SSA of everything the five accessors of kit.JApi reach in the module (closed world: static "
